@@ -421,7 +421,23 @@ func (rm *room) isCreator(id string) bool {
 func (rm *room) joinRuleContent(jr string) map[string]any {
 	c := map[string]any{"join_rule": jr}
 	if jr == "restricted" || jr == "knock_restricted" {
-		c["allow"] = []any{map[string]any{"type": "m.room_membership", "room_id": rm.allowed}}
+		allow := []any{map[string]any{"type": "m.room_membership", "room_id": rm.allowed}}
+		// sometimes several allow entries: further rooms, an entry of an
+		// unknown type, an entry with an unusable room ID
+		for k := rm.t.Weighted([]int{5, 3, 2}); k > 0; k-- {
+			switch rm.t.Weighted([]int{6, 1, 1}) {
+			case 0:
+				allow = append(allow, map[string]any{"type": "m.room_membership", "room_id": fmt.Sprintf("!allowed%d:%s", k, rm.servers[0].Name)})
+			case 1:
+				allow = append(allow, map[string]any{"type": "org.example.other", "room_id": rm.allowed})
+			case 2:
+				allow = append(allow, map[string]any{"type": "m.room_membership", "room_id": "not-a-room-id"})
+			}
+		}
+		if len(allow) > 1 && rm.t.Bool() {
+			allow[0], allow[len(allow)-1] = allow[len(allow)-1], allow[0]
+		}
+		c["allow"] = allow
 	}
 	return c
 }
